@@ -707,6 +707,26 @@ func diffTamperings() []tampering {
 		}
 		return false
 	})
+	// Cairo 0 declarations touch neither trie: the state-diff commitment inside the block hash is
+	// their only guard, so only the variants that keep the block hash are tamperings of a
+	// committed field (with a re-derived hash the result is simply another block)
+	out = append(out, tampering{"diff.declared_v0_class_replaced", func(tb *tampered) bool {
+		v0 := tb.su.StateDiff.DeclaredV0Classes
+		if len(v0) == 0 {
+			return false
+		}
+		cp := append([]*felt.Felt(nil), v0...)
+		cp[len(cp)-1] = bump(cp[len(cp)-1])
+		tb.su.StateDiff.DeclaredV0Classes = cp
+		return true
+	}}, tampering{"diff.declared_v0_class_removed", func(tb *tampered) bool {
+		v0 := tb.su.StateDiff.DeclaredV0Classes
+		if len(v0) == 0 {
+			return false
+		}
+		tb.su.StateDiff.DeclaredV0Classes = append([]*felt.Felt(nil), v0[1:]...)
+		return true
+	}})
 	return out
 }
 
